@@ -83,7 +83,7 @@ func c15Exec(c *Ctx, op string) string {
 	switch f[0] {
 	case "sr.filter":
 		return srExec(c, op)
-	case "cni.chain":
+	case "cni.chain", "cni.gen":
 		return c20Exec(c, []string{op})[0]
 	case "#":
 		if len(f) >= 4 && f[1] == "fuzz" {
